@@ -2,13 +2,13 @@ SPECIFICATION Spec
 CONSTANTS
   Cfg0 <- CfgA
   Users = {1, 2}
-  Ops <- OpsAsIs
+  Ops <- OpsDup
   MaxOps = 2
   Notifs <- NotifsA
   MaxNotif = 1
-  MaxDup = 0
-  DistinctPatterns = FALSE
-  Bug = "lifo"
+  MaxDup = 1
+  DistinctPatterns = TRUE
+  Bug = "none"
   OneQueryPerCmd = FALSE
 INVARIANT TypeOK
 INVARIANT CallsOK
